@@ -92,6 +92,10 @@ class Conc:
                 text += "data_%s\n" % self.code(b["code"])
                 for n, v in b["items"]:
                     text += "%s %s\n" % (self.name(n), self.render_value(v))
+                if "loop" in b:
+                    text += "loop_\n" + "".join(" %s\n" % self.name(n) for n in b["loop"]["names"])
+                    for row in b["loop"]["rows"]:
+                        text += " ".join(self.render_value(v) for v in row) + "\n"
             return {"op": "parse", "cif": e["cif"], "text": text, "errors": "accept"}
         c = {"op": op}
         for k in ("cif", "cont", "loop", "h"):
